@@ -2,4 +2,16 @@ INIT TInit
 NEXT TNext
 CONSTANTS
   MaxFragments = 1
+  FnScopes = {"def"}
+  MaxDepth = 1
+  PosMaxLines = 1
+  NodesHavePos = TRUE
+  DevOn = {"fwd", "byte", "split"}
+  YSites = {"oneline"}
+  YPads = {"none"}
+  YBefore = {0}
+  YAfter = {0}
+  YFillers = {"plain"}
+  YNewlines = {"lf"}
+  YTrail = {TRUE}
 CHECK_DEADLOCK FALSE
